@@ -37,7 +37,8 @@ BIDS = [1, 2, 3, 4]
 WSS = [0, 1, 2, 3, 4, 5]
 QUOTAS = [(None, None), (0, 0), (20, 20), ("35", 35), (60, 60), ("1K", 1024), (45, 45)]
 
-KNOWN_SIGS = ("gc-on-empty-store-filenotfound", "json-read-in-unlock-before-flush-window",
+# signatures of the defects found on the tree before the fixes (1-4: fixed, guarded by the directed cases; 5: known finding)
+FOUND_SIGS = ("gc-on-empty-store-filenotfound", "json-read-in-unlock-before-flush-window",
               "repo-json-read-in-creation-window", "collected-while-linked:lost-race-install-left-user-unrecorded",
               "gc-between-share-return-and-link")
 
@@ -628,6 +629,7 @@ def directed_cases():
     S = lambda procs, script: {"procs": procs, "mode": "sched", "script": script}
     F = lambda *procs: {"procs": list(procs), "mode": "free"}
     return [
+        # each of the first six cases guards one fix: with the fix reverted its interleaving fails with a specific signature
         # F-C15-1: first install is between makedirs and __addPackage, another project cleans
         ("gc-on-partially-created-store", [S([_inst(100, 1), _gc()], [(0, ("verify",)), (1, "done"), (0, "done")])]),
         # unlock before flush, repo.json: B's __addPackage has released the lock, its text is still buffered
@@ -1059,22 +1061,24 @@ def replay(ctx, case):
 
 MANIFEST = {
     "text": "Proved in Lean (Props/C15.lean over Model/Share.lean, an interleaving model of LocalShare install/use/gc/__addPackage and "
-            "of the builder's link creation, cut at every open, flock, unlock-before-flush point, rename, symlink) for ALL schedules of "
-            "any number of processes and any consistent initial store: visible_complete (a directory at a final path is complete and a "
-            "readable pkg.json records the hash of its content), lock_exclusion, install_once (#processes whose own rename published "
-            "Build-Id b = #collections + present now - present before; (path, True) iff own rename), gc_policy_* (removed = shortest prefix "
-            "of the unused candidates in (mtime,size,id) order that meets the quota, all unused with --all-unused, used ones only with "
-            "--used, dry-run never moves), not_collected_while_used_partial (every candidate was judged by the links of its recorded "
-            "users at scan time). For the PATCHED OpenLocked.__exit__ (flush before unlock) and an existing repo.json: "
-            "no_spurious_failure_partial and accounting_partial (repo.json = installed packages in every quiescent state). For the current "
-            "code the full statements no_spurious_failure_goal, accounting_goal, not_collected_while_used_goal are refuted by kernel-checked "
-            "witness schedules, each of which the harness replays on the real code with real processes. Tie to the source: every segment "
-            "of drawn interleavings of 1..3 real processes (stopped at the cut points through wrapped OpenLocked.__enter__, lockFile, "
-            "unlockFile, hashDirectoryWithSize, os.rename, os.symlink, os.unlink) is compared with Share.step: cut point reached / blocked / "
-            "result and the complete store (repo.json, packages, pkg.json, mtime order, links).",
-    "note": "trusted: Lean kernel, harness/props/c15.py + harness/gen/shareworld.py (process control), POSIX rename/flock semantics, "
-            "CPython buffered text files; the per-package flock is implicit in the model (segments under it are atomic); quota string "
-            "parsing, CopyMachine hard links, Windows placeholders, NFS are outside the model",
+            "of the builder's link creation, cut at every open, flock, unlock, rename, symlink; the variant of the code - with or "
+            "without each of the four fixes - is a parameter that tools/consts/c15.py extracts from the current source, and "
+            "`consts_are_fixed` obliges it to be the fixed one) for ALL schedules of any number of processes and any consistent "
+            "initial store incl. the empty one: visible_complete, lock_exclusion, install_once / install_result, gc_policy_* "
+            "(shortest prefix of the unused candidates in (mtime,size,id) order that meets the quota; all unused with --all-unused; "
+            "used ones only with --used; dry-run never moves), no_spurious_failure (no FileNotFoundError / JSONDecodeError / "
+            "'Corrupt meta info' / ENOENT at the collecting rename) and accounting (repo.json = installed packages in every "
+            "quiescent state) at full strength for the fixed code, not_collected_while_used_partial (candidates are judged by the "
+            "links of their recorded users at scan time). The full not_collected_while_used is refuted by a kernel-checked "
+            "witness (known finding: gc between the share call and the link creation), replayed on the real code. The witnesses "
+            "of the four fixed defects are kept for `Cfg.old`; the same interleavings are directed cases of the harness, so a "
+            "reverted fix breaks `consts_are_fixed` and yields a concrete replay. Tie to the source: every segment of directed and "
+            "drawn interleavings of 1..3 real processes (stopped at the cut points through wrapped OpenLocked.__enter__, lockFile, "
+            "unlockFile, hashDirectoryWithSize, os.rename, os.symlink, os.unlink) is compared with Share.step: cut point reached / "
+            "blocked / result and the complete store (repo.json, packages, pkg.json, mtime order, links).",
+    "note": "trusted: Lean kernel, harness/props/c15.py + harness/gen/shareworld.py (process control), tools/consts/c15.py, POSIX "
+            "rename/flock semantics, CPython buffered text files; the per-package flock is implicit in the model (segments under "
+            "it are atomic); quota string parsing, CopyMachine hard links, Windows placeholders, NFS are outside the model",
     "technique": "Lean 4 invariant proofs over a hand-written interleaving model + controlled real-process interleavings as "
                  "differential correspondence + property oracle on every intermediate store state",
 }
